@@ -10,6 +10,7 @@ import (
 	"errors"
 	"flag"
 	"fmt"
+	"io"
 	"math/rand"
 	"net/http"
 	"net/http/httptest"
@@ -24,6 +25,8 @@ import (
 	"github.com/vulcand/oxy/v2/buffer"
 	"github.com/vulcand/oxy/v2/cbreaker"
 	"github.com/vulcand/oxy/v2/connlimit"
+	"github.com/vulcand/oxy/v2/forward"
+	"github.com/vulcand/oxy/v2/internal/holsterv4/collections"
 	"github.com/vulcand/oxy/v2/internal/holsterv4/clock"
 	"github.com/vulcand/oxy/v2/memmetrics"
 	"github.com/vulcand/oxy/v2/ratelimit"
@@ -67,6 +70,26 @@ func (yieldingLogger) Debug(string, ...any) { runtime.Gosched() }
 func (yieldingLogger) Info(string, ...any)  { runtime.Gosched() }
 func (yieldingLogger) Warn(string, ...any)  { runtime.Gosched() }
 func (yieldingLogger) Error(string, ...any) { runtime.Gosched() }
+
+// slowLister is a round robin balancer that takes 4 ms to list its servers while slow is set
+type slowLister struct {
+	*roundrobin.RoundRobin
+	slow int32
+}
+
+func (l *slowLister) Servers() []*url.URL {
+	if atomic.LoadInt32(&l.slow) == 1 {
+		time.Sleep(4 * time.Millisecond)
+	}
+	return l.RoundRobin.Servers()
+}
+
+// fixedMeter is always ready and reports the rating it was built with
+type fixedMeter struct{ rating float64 }
+
+func (m *fixedMeter) Rating() float64           { return m.rating }
+func (m *fixedMeter) Record(int, time.Duration) {}
+func (m *fixedMeter) IsReady() bool             { return true }
 
 func mustURL(s string) *url.URL {
 	u, err := url.Parse(s)
@@ -687,6 +710,197 @@ func main() {
 			}
 			top.ServeHTTP(httptest.NewRecorder(), req)
 		})
+	}
+
+	// 8. forwarder: concurrent requests, each naming a hop-by-hop header of its own in Connection; every request is
+	// stripped according to its own Connection header and keeps its own end-to-end headers
+	{
+		scenarios++
+		var wrong int64
+		var firstWrong atomic.Value
+		backend := httptest.NewServer(http.HandlerFunc(func(w http.ResponseWriter, r *http.Request) {
+			id := r.Header.Get("X-Id")
+			for k := range r.Header {
+				if strings.HasPrefix(k, "X-Hop-") {
+					if atomic.AddInt64(&wrong, 1) == 1 {
+						firstWrong.Store(fmt.Sprintf("request %s: header %s, which its Connection header names, reached the backend", id, k))
+					}
+				}
+			}
+			if r.Header.Get("X-Keep-"+id) != "v"+id {
+				if atomic.AddInt64(&wrong, 1) == 1 {
+					firstWrong.Store(fmt.Sprintf("request %s: its end-to-end header X-Keep-%s did not reach the backend", id, id))
+				}
+			}
+			w.WriteHeader(200)
+		}))
+		fwd := forward.New(false)
+		nf := N/3 + 1
+		parallel(G, nf, func(gi, i int) {
+			id := fmt.Sprintf("%d", gi)
+			req := httptest.NewRequest(http.MethodGet, backend.URL+"/x", nil)
+			req.Header.Set("X-Id", id)
+			req.Header.Set("Connection", "keep-alive, X-Hop-"+id)
+			req.Header.Set("X-Hop-"+id, "for the proxy only")
+			req.Header.Set("X-Keep-"+id, "v"+id)
+			for o := 0; o < G; o++ { // headers other requests declare hop-by-hop are end-to-end for this one... but named X-Keep
+				if o != gi {
+					req.Header.Set(fmt.Sprintf("X-Keep-%d-%d", gi, o), "v")
+				}
+			}
+			rec := httptest.NewRecorder()
+			fwd.ServeHTTP(rec, req)
+			if rec.Code != 200 {
+				if atomic.AddInt64(&wrong, 1) == 1 {
+					firstWrong.Store(fmt.Sprintf("request %s-%d answered %d", id, i, rec.Code))
+				}
+			}
+		})
+		backend.Close()
+		if n := atomic.LoadInt64(&wrong); n > 0 {
+			fail("Forwarder: %d of %d concurrent requests were forwarded with another request's Connection options; first: %v", n, G*nf, firstWrong.Load())
+		}
+	}
+
+	// 9. webhook side effect: one effect fired by overlapping transitions (or shared by two breakers): every delivery
+	// carries the whole configured body
+	{
+		scenarios++
+		body := bytes.Repeat([]byte("0123456789abcdef"), 1<<12) // 64 KiB
+		var damaged, delivered int64
+		sink := httptest.NewServer(http.HandlerFunc(func(w http.ResponseWriter, r *http.Request) {
+			got, err := io.ReadAll(r.Body)
+			if err != nil || !bytes.Equal(got, body) {
+				atomic.AddInt64(&damaged, 1)
+			}
+			atomic.AddInt64(&delivered, 1)
+			w.WriteHeader(200)
+		}))
+		effect, err := cbreaker.NewWebhookSideEffect(cbreaker.Webhook{URL: sink.URL, Method: http.MethodPost, Body: body})
+		if err != nil {
+			fail("Webhook: %v", err)
+		} else {
+			nw := N/10 + 2
+			var failed int64
+			parallel(G, nw, func(gi, i int) {
+				if err := effect.Exec(); err != nil {
+					atomic.AddInt64(&failed, 1)
+				}
+			})
+			if d, f := atomic.LoadInt64(&damaged), atomic.LoadInt64(&failed); d > 0 || f > 0 {
+				fail("Webhook: of %d overlapping deliveries of one side effect %d arrived damaged (not the configured body) and %d failed at the sender", G*nw, d, f)
+			}
+		}
+		sink.Close()
+	}
+
+	// 10. TTL map (the rate limiter's store) used directly: a key that has expired is being looked up by several readers
+	// while a writer sets it afresh; once the writer's Set has returned the key is there, whatever the readers found
+	{
+		scenarios++
+		clock.Freeze(time.Date(2024, 5, 1, 0, 0, 0, 0, time.UTC))
+		const keys = 16
+		rounds := N*4 + 100
+		lost := 0
+		for round := 0; round < rounds && lost == 0; round++ {
+			m := collections.NewTTLMap(64)
+			for k := 0; k < keys; k++ {
+				_ = m.Set(fmt.Sprintf("k%d", k), "old", 1)
+			}
+			clock.Advance(3 * time.Second)
+			var start int32
+			var wg sync.WaitGroup
+			readers := G - 1
+			if readers < 2 {
+				readers = 2
+			}
+			for rd := 0; rd < readers; rd++ {
+				wg.Add(1)
+				go func(rd int) {
+					defer wg.Done()
+					for atomic.LoadInt32(&start) == 0 {
+						runtime.Gosched()
+					}
+					for k := 0; k < keys; k++ {
+						m.Get(fmt.Sprintf("k%d", (k+rd)%keys))
+					}
+				}(rd)
+			}
+			wg.Add(1)
+			go func() {
+				defer wg.Done()
+				for atomic.LoadInt32(&start) == 0 {
+					runtime.Gosched()
+				}
+				for k := 0; k < keys; k++ {
+					_ = m.Set(fmt.Sprintf("k%d", k), "fresh", 3600)
+				}
+			}()
+			atomic.StoreInt32(&start, 1)
+			wg.Wait()
+			for k := 0; k < keys; k++ {
+				if v, found := m.Get(fmt.Sprintf("k%d", k)); !found || v != "fresh" {
+					lost++
+					fail("TTLMap: round %d: Set(k%d, fresh, 3600) returned while readers were looking the expired key up; afterwards Get gives (%v, %v): a completed Set was lost", round, k, v, found)
+					break
+				}
+			}
+		}
+		clock.Unfreeze()
+	}
+
+	// 3f. rebalancer: requests that finish together while the rebalancer's mutex is busy (somebody lists the servers and the
+	// wrapped balancer is slow to answer) queue up behind it; the clock never moves, so whatever the order in which they get
+	// the mutex the weights are adjusted once (b: 1 -> 4) and then rest until the back-off is over
+	{
+		scenarios++
+		clock.Freeze(time.Date(2024, 5, 1, 0, 0, 0, 0, time.UTC))
+		rr, _ := roundrobin.New(ok)
+		inner := &slowLister{RoundRobin: rr}
+		ratings := []float64{0.3, 0}
+		rb, err := roundrobin.NewRebalancer(inner, roundrobin.RebalancerMeter(func() (roundrobin.Meter, error) {
+			m := &fixedMeter{rating: ratings[0]}
+			if len(ratings) > 1 {
+				ratings = ratings[1:]
+			}
+			return m, nil
+		}))
+		if err != nil {
+			fail("Rebalancer: %v", err)
+		} else {
+			ua, ub := mustURL("http://a:80"), mustURL("http://b:80")
+			_ = rb.UpsertServer(ua)
+			_ = rb.UpsertServer(ub)
+			for round := 0; round < N/30+3; round++ {
+				_ = rb.UpsertServer(ua) // a reset: configured weights again, the next request may adjust
+				atomic.StoreInt32(&inner.slow, 1)
+				var lister, reqs sync.WaitGroup
+				lister.Add(1)
+				go func() {
+					defer lister.Done()
+					_ = rb.Servers()
+					_ = rb.Servers()
+				}()
+				time.Sleep(time.Millisecond) // the lister holds the rebalancer's mutex now (for 2 x 4 ms)
+				for k := 0; k < G; k++ {
+					reqs.Add(1)
+					go func() {
+						defer reqs.Done()
+						rb.ServeHTTP(httptest.NewRecorder(), request("10.0.0.9"))
+					}()
+				}
+				lister.Wait()
+				reqs.Wait()
+				atomic.StoreInt32(&inner.slow, 0)
+				wa, _ := rr.ServerWeight(ua)
+				wb, _ := rr.ServerWeight(ub)
+				if wa != 1 || wb != 4 {
+					fail("Rebalancer: %d requests finished within one back-off interval (frozen clock) while the mutex was busy and left the weights at a=%d b=%d; one adjustment per back-off interval gives a=1 b=4", G, wa, wb)
+					break
+				}
+			}
+		}
+		clock.Unfreeze()
 	}
 
 	fmt.Printf("race-stress: %d scenarios, %d goroutines x %d requests, %d lost-update failures\n", scenarios, G, N, failures)
